@@ -194,8 +194,13 @@ def main(argv=None):
     evidence = {
         'property_id': pid, 'tier': tier, 'seed': seed, 'level': getattr(mod, 'LEVEL', 'proof'),
         'coverage': {
-            'obligations': len(obligations), 'discharged': len(discharged),
-            'refuted_known_findings': len(known_hits), 'refuted_violations': len(violations),
+            # `obligations` counts the obligations claimed proved on this tree; obligations that fail and are listed in
+            # known_findings.txt are reported separately (KNOWN-FINDING lines) and are not part of the claim
+            'obligations': len(obligations) - len([1 for o, _ in known_hits if not o.get('bounded')]),
+            'discharged': len(discharged),
+            'obligations_generated': len(obligations),
+            'refuted_known_findings': len(known_hits), 'known_finding_obligations': [o['name'] for o, _ in known_hits],
+            'refuted_violations': len(violations),
             'undecided': len(unknown),
             'checker_cmd': f'./check {pid} --tier {tier}',
             'trusted_base': getattr(mod, 'TRUSTED', []),
